@@ -209,6 +209,11 @@ func monWire(v *runView) (out []finding) {
 		}
 	}
 	for _, d := range v.r.Direct {
+		if strings.HasPrefix(d, "bytes returned by RawRecv") {
+			// what a call received was altered afterwards (C01), by traffic of a later message or RPC (C02)
+			out = append(out, finding{"C01", d, len(v.r.Lines) - 1, nil}, finding{"C02", d, len(v.r.Lines) - 1, nil})
+			continue
+		}
 		out = append(out, finding{"C07", d, len(v.r.Lines) - 1, nil})
 	}
 	for i, l := range v.r.Lines {
@@ -348,6 +353,22 @@ func monDelivery(v *runView) (out []finding) {
 		// (RawRecv hands out an undecodable payload "bad<sid>" as it is: still the stream's own message)
 		if !(strings.HasPrefix(x.Tag, "s"+strconv.Itoa(sid)+".") || x.Tag == "bad"+strconv.Itoa(sid)) || sid == 0 {
 			out = append(out, finding{"C02", "a client call received a message of another stream", x.Line, map[string]any{"rpc": x.R, "stream": sid, "tag": x.Tag}})
+		}
+	}
+	return
+}
+
+// monPeerRejects: between two conforming endpoints neither reader ever rejects what the other wrote.  When it does
+// (id monotonicity, invoke on an existing stream, unknown kind), packets of one stream have disturbed the whole
+// connection: every RPC on it fails (C02), and the bytes were not a valid frame stream (C07).
+func monPeerRejects(v *runView) (out []finding) {
+	for i, l := range v.r.Lines {
+		for t, st := range l.Obs.App {
+			if strings.Contains(st, "monotonicity") || strings.Contains(st, "mgr:protoInvoke") || strings.Contains(st, "mgr:internalKind") {
+				what := "an endpoint's reader rejected the frame stream of its (conforming) peer: " + st[strings.Index(st, ":")+1:]
+				out = append(out, finding{"C02", what, i, map[string]any{"thread": t}}, finding{"C07", what, i, map[string]any{"thread": t}})
+				return
+			}
 		}
 	}
 	return
